@@ -583,6 +583,7 @@ fn resend_cells(ctx: &Ctx) -> u64 {
                             let form = attohttpc::MultipartBuilder::new()
                                 .with_text("t", "v")
                                 .with_file(attohttpc::MultipartFile::new("f", b"\r\n--x\r\n").with_filename("n.bin"))
+                                .with_file(attohttpc::MultipartFile::new("g", b"png").with_type("image/png").map_err(|e| e.to_string())?)
                                 .build()
                                 .map_err(|e| e.to_string())?;
                             twice(rb.body(form), wm)
